@@ -26,8 +26,10 @@ ASSUMPTIONS = [
     'malformed lines make filter_event_file hang about once in 300 calls with n_jobs >= 2 (Pool.__exit__ -> terminate() '
     'kills a worker that holds the result queue lock while further exceptions are in flight) - reported to the lead, '
     'not part of this campaign',
-    'keep_*/remove_* are given as lists of str, *_map as dicts (a str given as keep_cues would be used with substring '
-    '`in`; not part of the property)',
+    'keep_*/remove_* are given as list, tuple, set, frozenset or dict key view of str (documented: "sequence of str"), '
+    '*_map as dict, OrderedDict or defaultdict with a default factory of its own (documented: "dict"; "removes all cues '
+    'that do not have a key"); a one-shot iterator is not a sequence and not generated; a str given as keep_cues would be '
+    'used with substring `in`; not part of the property',
 ]
 TRUSTED = [
     'CPython multiprocessing.Pool (imap order, chunking by islice, ValueError for chunksize < 1), gzip, UTF-8 codec',
@@ -41,6 +43,13 @@ OUTS = ['x', 'y', 'z', 'ö']
 EXTRA = ['q', 'ab', 'X', 'é ', '']          # names that never / rarely occur, incl. the empty token
 CHUNKS = [1, 2, 7, 100000]
 HEADER = 'cues\toutcomes'
+# the Python types the rule arguments are handed over as (impl_filter.container / mapping).  The
+# constructor treats the four keep_/remove_ arguments differently (three are copied into a set, keep_cues
+# is stored as given), so the type is drawn per argument.
+CONTAINERS = ['list', 'tuple', 'set', 'frozenset', 'dict_keys']
+CONTAINERS_OF = {'keep_cues': ['list', 'tuple', 'set', 'frozenset'], 'keep_outcomes': CONTAINERS,
+                 'remove_cues': CONTAINERS, 'remove_outcomes': CONTAINERS}
+MAPPINGS = ['dict', 'defaultdict', 'defaultdict_factory', 'ordereddict']
 
 
 # --------------------------------------------------------------------------
@@ -105,6 +114,27 @@ def gen_side(r, alphabet, kind=None):
     if kind == 'remove':
         return {'remove': gen_set(r, alphabet)}
     return {'map': gen_map(r, alphabet)}
+
+
+def gen_containers(r):
+    c = {k: r.choice(v) for k, v in CONTAINERS_OF.items()}
+    c['cue_map'] = r.choice(MAPPINGS)
+    c['outcome_map'] = r.choice(MAPPINGS)
+    return c
+
+
+def used_containers(t):
+    """[(argument name, type)] of the rule arguments a task really passes"""
+    out = []
+    cont = t.get('containers') or {}
+    for sk in ('cues', 'outcomes'):
+        side = t.get(sk) or {}
+        for rk in ('keep', 'remove'):
+            if side.get(rk) is not None:
+                out.append(('%s_%s' % (rk, sk), cont.get('%s_%s' % (rk, sk), 'list')))
+        if side.get('map') is not None:
+            out.append((sk[:-1] + '_map', cont.get(sk[:-1] + '_map', 'dict')))
+    return out
 
 
 def side_kind(side):
@@ -219,6 +249,13 @@ def cases(tier):
         out.append({'kind': 'sweep', 'stream': 'sweep', 'events': es,
                     'cues': gen_side(r, CUES, r.choice(['keep', 'remove', 'map'])), 'outcomes': gen_side(r, OUTS),
                     'par': [[nj, ch] for ch in CHUNKS for nj in ([1, 3, 8] if not big else [1, 2, 3, 5, 8])]})
+    # argument types and verbose=True (X1, a quarter of the cases): drawn from a stream of their own, so
+    # the cases above are what they were; the model knows neither, the result must not depend on them
+    rc = rng('C10/containers')
+    for c in out:
+        c['containers'] = gen_containers(rc)
+        if rc.random() < 0.25:
+            c['verbose'] = True
     return out
 
 
@@ -252,6 +289,10 @@ def law_runs(c):
 
 def impl_tasks(c):
     base = {'op': 'filter_file'}
+    if c.get('containers'):
+        base['containers'] = c['containers']
+    if c.get('verbose'):
+        base['verbose'] = True
     if c.get('events') is not None:
         base['events'] = c['events']
     else:
@@ -412,6 +453,13 @@ def candidates(c):
                         out.append(dict(c, **{sk: dict(side, **{rk: _without(v, j, 1)})}))
             if len([k for k in side if side[k] is not None]) == 1 and c.get('stream') != 'constructor':
                 out.append(dict(c, **{sk: {}}))
+    if c.get('containers'):
+        out.append(dict(c, containers={}))
+        for k in sorted(c['containers']):
+            if c['containers'][k] not in ('list', 'dict'):
+                out.append(dict(c, containers={kk: v for kk, v in c['containers'].items() if kk != k}))
+    if c.get('verbose'):
+        out.append({k: v for k, v in c.items() if k != 'verbose'})
     if c['kind'] == 'model':
         if c['n_jobs'] != 1:
             out.append(dict(c, n_jobs=1))
@@ -460,15 +508,24 @@ def python_snippet(c):
     src = ['import gzip', 'from pyndl.preprocess import filter_event_file',
            "with gzip.open('in.tab.gz', 'wt', encoding='utf-8', newline='\\n') as f:",
            '    f.write(%r)' % text]
+    cont = c.get('containers') or {}
+    wrap = {'list': '%s', 'tuple': 'tuple(%s)', 'set': 'set(%s)', 'frozenset': 'frozenset(%s)',
+            'dict_keys': 'dict.fromkeys(%s).keys()', 'dict': '%s', 'defaultdict': 'collections.defaultdict(str, %s)',
+            'defaultdict_factory': "collections.defaultdict(lambda: 'DEFAULT-FACTORY-VALUE', %s)",
+            'ordereddict': 'collections.OrderedDict(%s)'}
+    if any(v.startswith(('defaultdict', 'ordered')) for v in cont.values()):
+        src.insert(0, 'import collections')
     for k, t in enumerate(ts):
         kw = []
         for sk in ('cues', 'outcomes'):
             side = t.get(sk) or {}
             for rk in ('keep', 'remove'):
                 if side.get(rk) is not None:
-                    kw.append('%s_%s=%r' % (rk, sk, side[rk]))
+                    kw.append('%s_%s=%s' % (rk, sk, wrap[cont.get('%s_%s' % (rk, sk), 'list')] % repr(side[rk])))
             if side.get('map') is not None:
-                kw.append('%s_map=%r' % (sk[:-1], {a: b for a, b in side['map']}))
+                kw.append('%s_map=%s' % (sk[:-1], wrap[cont.get(sk[:-1] + '_map', 'dict')] % repr({a: b for a, b in side['map']})))
+        if t.get('verbose'):
+            kw.append('verbose=True')
         cur = 'in.tab.gz'
         for p in range(t['passes']):
             dst = 'out%d_%d.tab.gz' % (k, p)
@@ -525,6 +582,9 @@ def run(rep, pool, driver, tier):
             rep.count('rule_outcomes:' + side_kind(t['outcomes']))
             rep.count('n_jobs:%d' % t['n_jobs'])
             rep.count('chunksize:%d' % t['chunksize'])
+            rep.count('verbose:%s' % bool(t.get('verbose')))
+            for arg, typ in used_containers(t):
+                rep.count('container:%s:%s' % (arg, typ))
             rep.count('impl_calls', t['passes'])
             if 0 < t['chunksize'] < n_ev:
                 rep.count('more_than_one_chunk')
